@@ -20,6 +20,7 @@
 import RV.Lemmas.ClosedLoopStepRo
 import RV.Lemmas.ClosedLoopStepBr
 import RV.Lemmas.ClosedLoopLabels
+import RV.Lemmas.ClosedLoopGate
 import RV.Props.ExecutorThms
 namespace RV.Props.ClosedLoop
 open RV.Arith RV.Traffic RV.RolloutSM RV.ClosedLoop RV.Oracle.ClosedLoop RV.Oracle.Batch RV.Lemmas.ClosedLoop
@@ -303,6 +304,84 @@ theorem loop_exposure_oracle_partial (s0 s : CS) (ls : List Label) (h0 : Init s0
       · cases hwc
     · rfl
 
+/-! ### 4. `loop_gate` (C02.ii): the trace theorem
+
+The ghost `Ghost` (per step index: *upgraded* = a Rollout reconcile in `BeforeStepUpgrade`/`StepUpgrade` found the
+BatchRelease reporting the step's pods ready; *routed* = a reconcile in `StepTrafficRouting` found the traffic
+routing done, or the step took the documented full-replica bypass; *pauseOK* = in `StepPaused` the pause was found
+satisfied or the user approved) is updated by `gstep` from what the transition *read* — observations of the
+pre-state, conditioned on the pre sub-state — never from the sub-state it writes.  No transition reads the ghost. -/
+
+/-- histories with the ghost carried along -/
+inductive GReach : Ghost → CS → List Label → Ghost → CS → Prop
+  | nil (g : Ghost) (s : CS) : GReach g s [] g s
+  | cons (g g'' : Ghost) (s s' s'' : CS) (l : Label) (ls : List Label) :
+      legal s l = true → step s l = some s' → GReach (gstep g s l s') s' ls g'' s'' → GReach g s (l :: ls) g'' s''
+
+theorem GReach.reach {g g' : Ghost} {s s' : CS} {ls : List Label} (h : GReach g s ls g' s') : Reach s ls s' := by
+  induction h with
+  | nil g s => exact Reach.nil s
+  | cons g g'' s s' s'' l ls hl hs _ ih => exact Reach.cons s s' s'' l ls hl hs ih
+
+/-- **C02.ii (trace theorem, every history)** — in every reachable state in which the rollout is rolling on step `k`
+    (`gateInv`): the ghost speaks about step `k`; a sub-state past `StepUpgrade` implies *upgraded*; a sub-state past
+    `StepTrafficRouting` implies *routed*; `StepReady`/`Completed` implies *pauseOK*; and the observations were made in
+    that order (*routed* ⇒ *upgraded*, *pauseOK* ⇒ *routed*).  (partial: label set) -/
+theorem loop_gate_partial (g0 g : Ghost) (s0 s : CS) (ls : List Label) (h0 : Init s0) (hr : GReach g0 s0 ls g s) :
+    gateInv g s = true := by
+  have hinv := init_inv s0 h0
+  have hg0 : gateInv g0 s0 = true := by
+    unfold gateInv rollingSub
+    obtain ⟨_, hph, _⟩ := h0
+    simp [hph]
+  clear h0
+  induction hr with
+  | nil => exact hg0
+  | cons g g'' s s' s'' l ls hl hs _ ih =>
+    obtain ⟨t, ht, hinv'⟩ := fwd_step s l hinv hl
+    rw [hs] at ht; cases ht
+    exact ih hinv' (gate_step g s s' l hinv hg0 hl hs).1
+
+/-- **C02.ii (the index moves only through the gates)** — along every history, a reconcile moves the rollout from step
+    `k` to another step only to `k + 1` and only when all three observations of step `k` had been made (in the order
+    above); no other legal label moves the index of a rolling rollout.  (partial: label set) -/
+theorem loop_advance_gated_partial (g0 g : Ghost) (s0 s s' : CS) (ls : List Label) (l : Label) (h0 : Init s0)
+    (hr : GReach g0 s0 ls g s) (hl : legal s l = true) (hs : step s l = some s') : advanceOK g s l s' = true := by
+  have hinv := loop_inv_partial s0 s ls h0 hr.reach
+  exact (gate_step g s s' l hinv (loop_gate_partial g0 g s0 s ls h0 hr) hl hs).2
+
+/-- **C02.iii (closed loop)** — while `spec.strategy.paused` is set, a Rollout reconcile of a rolling rollout (no rollback
+    pending) changes nothing in the joint state but the Rollout's own status, and there neither the step index nor the
+    sub-state: no BatchRelease, workload or network write.  Holds from EVERY joint state (no reachability needed). -/
+theorem loop_paused_frame (s s' : CS) (w : CWl) (hgone : s.gone = false) (hfin : s.ro.hasFinalizer = true) (hw : s.wl = some w)
+    (hroll : RV.Oracle.RolloutSM.inRollingNow s.ro = true) (hp : s.ro.paused = true) (hc : (roWl w).consistent = true)
+    (hnr : (roWl w).inRollback = false) (hen : s.ro.disabled = false) (hs : step s .ro = some s') :
+    s'.wl = s.wl ∧ s'.br = s.br ∧ s'.net = s.net ∧
+    (s'.ro.sub.map fun x => (x.curIdx, x.state)) = (s.ro.sub.map fun x => (x.curIdx, x.state)) := by
+  simp only [step, stepRo, hgone, Bool.false_eq_true, if_false] at hs
+  split at hs
+  · cases hs
+  · rename_i r hr
+    simp only [Option.some.injEq] at hs
+    have hpn := RV.Props.Reconcile.paused_no_progress (roWorld s) r hr hfin
+    unfold RV.Oracle.RolloutSM.pausedNoProgress at hpn
+    have hwl : (roWorld s).wl = some (roWl w) := by simp only [roWorld, hw, Option.map_some]
+    rw [hwl] at hpn
+    dsimp only at hpn
+    have hro : (roWorld s).ro = s.ro := rfl
+    rw [hro, if_pos ⟨hroll, hp, hc, by simp [hnr], by simp [hen]⟩] at hpn
+    simp only [Bool.and_eq_true, beq_iff_eq] at hpn
+    obtain ⟨⟨⟨⟨hbr, hnet⟩, hwl'⟩, _⟩, hsub⟩ := hpn
+    have hmem : True := trivial
+    subst hs
+    have hbr' : r.w.br = (roWorld s).br := hbr
+    have hwl'' : r.w.wl = (roWorld s).wl := by rw [hwl']; exact hwl.symm ▸ rfl
+    unfold landRo
+    rw [hbr', hwl'']
+    simp only [roWorld, annoLand_id, landBR_id]
+    refine ⟨trivial, trivial, hnet, ?_⟩
+    cases h1 : s.ro.sub <;> cases h2 : r.w.ro.sub <;> simp only [hro, h1, h2] at hsub <;> simp_all
+
 /-! ### 5. `loop_crash` (C06) -/
 
 /-- **C06** — `crash` (the controller restarts: the in-memory grace expectations are lost) is a label of every history
@@ -317,5 +396,61 @@ theorem Reach.snoc (s0 s s' : CS) (ls : List Label) (l : Label) (hr : Reach s0 l
   induction hr with
   | nil s => exact Reach.cons s s' s' l [] hl hs (Reach.nil s')
   | cons a b c l' ls' hl' hs' _ ih => exact Reach.cons a b s' l' _ hl' hs' (ih hl hs)
+
+/-! ### non-vacuity: concrete initial state, concrete histories (kernel evaluation of the model — tests, not the ∀ claims) -/
+
+/-- run a history, checking the legality of every label -/
+def legalRun (s : CS) : List Label → Option CS
+  | [] => some s
+  | l :: ls => if legal s l then (match step s l with | some s' => legalRun s' ls | none => none) else none
+
+theorem reach_of_legalRun (s s' : CS) (ls : List Label) (h : legalRun s ls = some s') : Reach s ls s' := by
+  induction ls generalizing s with
+  | nil => simp only [legalRun, Option.some.injEq] at h; subst h; exact Reach.nil s
+  | cons l ls ih =>
+    unfold legalRun at h
+    split at h
+    · rename_i hl
+      split at h
+      · rename_i t ht; exact Reach.cons s t s' l ls hl ht (ih t h)
+      · cases h
+    · cases h
+
+def exRo : Rollout :=
+  { style := .canary, steps := [⟨.pct 20, some 20, .manual⟩, ⟨.pct 100, none, .short⟩], paused := false, disabled := false,
+    deleting := false, hasFinalizer := true, hasTraffic := true, disableGen := false, rollbackInBatch := false, grace := 3,
+    phase := .healthy, reason := .none, condAge := .none, succeeded := none, term := .none, sub := none, realPartition := true }
+def exWl : CWl :=
+  { replicas := 10, generation := 1, observedGeneration := 1, statusReplicas := 10, updated := 10, updatedReady := 10,
+    updateRevision := "v1", currentRevision := "v1", partition := none, paused := false, owner := .none, inProgressAnno := false }
+def exS0 : CS :=
+  { gone := false, ro := exRo, wl := some exWl, br := none,
+    net := { stableExists := true, stableSel := none, canarySvc := none, stableIngress := true, canaryIng := none }, mem := Mem.empty }
+def exRound : List Label := [.ro, .br, .env, .approve, .tick]
+
+/-- the hypotheses of every theorem above are satisfiable: 10 replicas, plan 20 % (traffic 20 %, manual pause) / 100 % -/
+example : Init exS0 := ⟨by decide, rfl, rfl, exWl, rfl, by decide, by decide, rfl⟩
+
+/-- test: after the release of `v2` and 7 fair rounds the rollout is rolling on step 1, the BatchRelease asks for batch 0
+    and the CloneSet partition is 80 % (2 of 10 pods) -/
+example : (legalRun exS0 (.release "v2" :: (List.replicate 7 exRound).flatten)).map
+      (fun s => (s.ro.reason, s.ro.sub.map (·.curIdx), s.wl.bind (·.partition), s.br.map (·.partition))) =
+    some (.inRolling, some 1, some (.pct 80), some (some 0)) := by decide +kernel
+
+/-- test: 21 rounds later (with a crash in the middle) the rollout is on step 2 and the partition is 0 % -/
+example : (legalRun exS0 (.release "v2" :: (List.replicate 12 exRound).flatten ++ [.crash] ++ (List.replicate 10 exRound).flatten)).map
+      (fun s => (s.ro.reason, s.ro.sub.map (·.curIdx), s.wl.bind (·.partition))) =
+    some (.inRolling, some 2, some (.pct 0)) := by decide +kernel
+
+/-- test: the whole rollout finishes (Healthy, BatchRelease gone, partition released, all pods updated) within 40 fair rounds,
+    and a second release (`v3`) is then legal and is taken up -/
+example : (legalRun exS0 (.release "v2" :: (List.replicate 40 exRound).flatten ++ [.release "v3", .env, .ro])).map
+      (fun s => (s.ro.phase, s.ro.reason, s.br.isNone, s.wl.map (fun w => (w.updated, w.inProgressAnno)))) =
+    some (.progressing, .initializing, true, some (0, true)) := by decide +kernel
+
+/-- test: the ghost of the first history: on step 1 in `StepUpgrade`, nothing observed yet -/
+example : RV.Oracle.ClosedLoop.traceOK (Ghost.fresh 0) exS0
+    ((List.replicate 3 exRound).flatten.foldl (fun (acc : CS × List (Label × CS × Bool)) l =>
+        match step acc.1 l with | some s' => (s', acc.2 ++ [(l, s', true)]) | none => acc) (exS0, [])).2 = true := by decide +kernel
 
 end RV.Props.ClosedLoop
